@@ -42,6 +42,7 @@ class SummaryExit:
 class CSA:
     def __init__(self, syn, optable, operands_decl, scope_variants=('Local', 'Global'), file='src/compiler.rs', ty='Compiler'):
         self.methods = syn.methods(file, ty)
+        self.free_fns = {it['name']: it for it in syn.all_items(file) if it['k'] == 'fn'}
         self.m = Machine(optable, operands_decl)
         self.scope_variants = list(scope_variants)
         self.summaries = {}       # method -> {key: SummaryExit}
@@ -49,7 +50,8 @@ class CSA:
         self.depth = 0
         self.sid = 0
         self.collect = None       # when set: list receiving finished paths (method, kind, st, val)
-        self.symtab_bool = {}     # name -> ('ctxlen', op, n) evaluators for SymbolTable bool methods
+        self.symtab_bool = {}
+        self.symtab_reset = set()     # name -> ('ctxlen', op, n) evaluators for SymbolTable bool methods
         self.err_states = []      # states at error exits (for C17)
         self.unmodelled = []
         self.escapes_of = {}
@@ -633,6 +635,15 @@ class CSA:
                 return [(s, en, 'v', ('error', name))]
             if q in ('Vec', 'String', 'Bytecode'):
                 return [(s, en, 'v', ('unk', name))]
+            if q is None and name in self.free_fns:
+                # a free function of the module cannot touch the compiler's state: it is a pure conversion of its argument
+                ff = self.free_fns[name]
+                arg = vals[0] if vals else ('unk', name)
+                if 'Result' in ff['output']:
+                    s2 = s.clone()
+                    s2.trace.append('%s fails' % name)
+                    return [(s, en, 'v', ('res', 'ok', arg)), (s2, en, 'v', ('res', 'err', ('error', name)))]
+                return [(s, en, 'v', arg)]
             raise Undecided('CSA: call of %s at line %s' % ('::'.join(f), e.get('line')))
         return self.seq(e['args'], st, env, cont)
 
@@ -693,6 +704,15 @@ class CSA:
                     return V(m.here(s))
                 if meth in ('shrink_to_fit', 'capacity', 'is_empty', 'iter', 'as_slice'):
                     return V(('unk', meth))
+                if meth == 'clear' and s.in_function is False and not s.frames and not s.loops:
+                    # discarding the whole buffer at the top level of a (failed) compilation
+                    m.finalize(s)
+                    s.pending = {}
+                    s.code = []
+                    s.emitted = False
+                    s.h = H(0)
+                    s.reach = True
+                    return V(('unit',))
                 s.viol('R02.2', 'the code buffer is modified by self.instructions.%s() outside the emit primitives' % meth)
                 self.unmodelled.append(('self.instructions.%s' % meth, e.get('line')))
                 return V(('unk', meth))
@@ -835,6 +855,14 @@ class CSA:
             return V(('unit',))
         if meth == 'leave_context':
             return V(m.leave_context(s))
+        if meth in self.symtab_reset:
+            # back to the bare global context: only meaningful at the top level of a compilation (error recovery)
+            if s.in_function is not False or s.frames:
+                s.viol('R09.1', 'self.symbols.%s() (drops every open scope/context) is called inside a construct' % meth)
+            s.scopes = 0
+            s.ctx_depth = 0
+            s.frames = []
+            return V(('unit',))
         # boolean query about the context depth: interpreted from its own source
         q = self.symtab_bool.get(meth)
         if q is not None:
@@ -885,6 +913,10 @@ class CSA:
                 m.remove_last(s)
                 return V(('unit',))
             if meth == 'add_constant':
+                if 'Result' in self.methods['add_constant']['output']:
+                    s2 = s.clone()
+                    s2.trace.append('add_constant fails')
+                    return [(s, en, 'v', ('res', 'ok', ('constidx', a[0]))), (s2, en, 'v', ('res', 'err', ('error', 'pool full')))]
                 return V(('constidx', a[0]))
             if meth not in self.methods:
                 raise Undecided('CSA: self.%s() is not a method of the compiler' % meth)
@@ -1118,7 +1150,11 @@ class CSA:
         for s1, e1, kind, v in outs:
             if kind not in ('v', 'ret'):
                 raise Undecided('CSA: stray break in %s' % meth)
-            self.m.finalize(s1)
+            if v and v[0] == 'res' and v[1] == 'err':
+                # error exit: whatever was half-emitted is discarded by the caller (R17.2); no shape obligation
+                s1.cur = None
+            else:
+                self.m.finalize(s1)
             res.append((s1, v))
         return res
 
